@@ -3,6 +3,7 @@ package main
 import (
 	"fmt"
 	"go/ast"
+	"go/token"
 	"go/types"
 	"strings"
 )
@@ -26,6 +27,7 @@ func runC10(c *Ctx) {
 	c.ruleCloseSiblings("R10.2", false)
 	c.ruleClosedQueueRejects("R10.3")
 	c.rulePurge("R10.4")
+	c.ruleQueuedBeforePublication("R10.5")
 }
 
 // statusStoreSites: every plain store of the job status (direct Store or via
@@ -288,8 +290,78 @@ func (c *Ctx) ruleClosedQueueRejects(rule string) {
 	}
 }
 
+// ruleValuesComplete: the FIFO queue's Values() (the snapshot Purge cancels from) may return early only when
+// the whole queue is empty; an emptiness test of one segment is not that.
+func (c *Ctx) ruleValuesComplete(rule string) {
+	r := c.pqRoles(rule)
+	if r.fifo == nil {
+		return
+	}
+	var vals, lenF *Func
+	for _, f := range c.P.Funcs {
+		if f.Obj != nil && f.Decl.Recv != nil {
+			if n := namedOf(f.Obj.Type().(*types.Signature).Recv().Type()); n != nil && n.Origin() == r.fifo {
+				switch f.Obj.Name() {
+				case "Values":
+					vals = f
+				case "Len":
+					lenF = f
+				}
+			}
+		}
+	}
+	if vals == nil || lenF == nil {
+		c.Rep.undecided(rule, "Queue.Values", "missing", "", "FIFO Values()/Len() not found")
+		return
+	}
+	info := vals.Info()
+	sr := &seqRule{c: c, rule: rule}
+	sr.classify = func(fr *Frame, call *ast.CallExpr, ce *Callee, args []Value) *callEvent {
+		if ce.Key == lenF.Key {
+			return &callEvent{Atomic: true, Results: tok("qlen")}
+		}
+		return nil
+	}
+	sr.condExpr = func(fr *Frame, e ast.Expr, branch bool, ip *Interp, st *State) string {
+		be, op := binOp(e)
+		if be == nil || fr.Caller != nil {
+			return ""
+		}
+		if call, ok := ast.Unparen(be.X).(*ast.CallExpr); ok && resolveCallee(info, call).Key == lenF.Key {
+			if tv := info.Types[be.Y]; tv.Value != nil && tv.Value.ExactString() == "0" {
+				switch op {
+				case token.EQL:
+					return fmt.Sprintf("empty=%v", branch)
+				case token.NEQ, token.GTR:
+					return fmt.Sprintf("empty=%v", !branch)
+				}
+			}
+		}
+		return ""
+	}
+	n := 0
+	for _, sg := range sr.segments(vals) {
+		if sg.Kind != "path" {
+			continue
+		}
+		n++
+		walked := false
+		for _, s := range sg.Syms {
+			if strings.HasPrefix(s, "loop@") {
+				walked = true
+			}
+		}
+		c.Rep.check(walked || sg.has("empty=true"), rule, vals.Short(), "Values returns early without the whole queue being empty", sg.End, "early return only when Len() == 0",
+			"Values() returns without walking the segments on a path that did not establish Len() == 0 (e.g. it tested only the current read segment, which Dequeue leaves exhausted before it advances): Purge then cancels nothing although jobs are stored ["+strings.Join(sg.Syms, " ")+"]")
+	}
+	if n == 0 {
+		c.Rep.undecided(rule, vals.Short(), "no path", "", "")
+	}
+}
+
 func (c *Ctx) rulePurge(rule string) {
 	c.Rep.rule(rule, "E2+value flow", "Purge closes every removed io.Closer value, and the values it closes come from the operation that removes them", 2)
+	c.ruleValuesComplete(rule)
 	for _, f := range filterPkg(c.P.funcsCalling(kPurgeI), modPath) {
 		if !c.P.containsCall(f, kValuesI) && !c.P.containsCall(f, kCloserI) {
 			// a thin forwarder (persistentQueue.Purge → queue.Purge is a method call on the embedded type, not IBaseQueue.Purge)
